@@ -80,10 +80,12 @@ Fixpoint pa_insert (k a : N) (m : addrmap) : addrmap :=
   | (k', a') :: r => if k' =? k then (k', a) :: r else (k', a') :: pa_insert k a r
   end.
 
-(* GossipMessage (the two delta carriers) and RoutedMessage *)
+(* GossipMessage (the two delta carriers and the heartbeat, i.e. everything GossipState
+   itself queues) and RoutedMessage *)
 Inductive gmsg :=
 | DeltaBatch (src : N) (ds : list delta) (epoch : N)
-| TargetedDelta (src tgt : N) (ds : list delta) (epoch : N).
+| TargetedDelta (src tgt : N) (ds : list delta) (epoch : N)
+| Heartbeat (src : N) (epoch : N).
 Notation routed := (option N * gmsg)%type (only parsing).
 
 Definition MAX_OUTBOUND_QUEUE : N := 10000.
@@ -284,6 +286,29 @@ Section RingModel.
       | None => broadcast
       end
     end.
+
+  (* gossip.rs: queue_deltas_broadcast (ignores the router; nothing for an empty batch),
+     queue_heartbeat, drain_outbound (mem::take), set_router *)
+  Definition queue_deltas_broadcast (g : gstate) (deltas : list delta) : gstate :=
+    match deltas with
+    | [] => g
+    | _ => GState (g_id g) (g_epoch g)
+                  (enforce_capacity (g_queue g ++ [(None, DeltaBatch (g_id g) deltas (g_epoch g))]))
+                  (g_router g)
+    end.
+  Definition queue_heartbeat (g : gstate) : gstate :=
+    GState (g_id g) (g_epoch g)
+           (enforce_capacity (g_queue g ++ [(None, Heartbeat (g_id g) (g_epoch g))])) (g_router g).
+  Definition drain_outbound (g : gstate) : list routed * gstate :=
+    (g_queue g, GState (g_id g) (g_epoch g) [] (g_router g)).
+  Definition set_router (g : gstate) (r : router) : gstate :=
+    GState (g_id g) (g_epoch g) (g_queue g) (Some r).
+
+  (* gossip_router.rs:177-184  update_peer / remove_peer (dynamic membership) *)
+  Definition update_peer (r : router) (k a : N) : router :=
+    Router (gr_ring r) (gr_me r) (pa_insert k a (gr_peers r)) (gr_selective r).
+  Definition remove_peer (r : router) (k : N) : router :=
+    Router (gr_ring r) (gr_me r) (filter (fun p => negb (fst p =? k)) (gr_peers r)) (gr_selective r).
 
   Definition advance_epoch (g : gstate) : gstate :=
     GState (g_id g) (if g_epoch g =? 18446744073709551615 then g_epoch g else g_epoch g + 1)
